@@ -889,6 +889,47 @@ import collections as _collections
 _KEPT = _collections.deque()
 
 
+_CONSTS = {}
+
+
+def source_constants():
+    """Octet strings that occur as literals in the SOURCE of the tree under test (bytes and short str literals as they are;
+    integer literals of two or more octets in big- and little-endian form), de-duplicated.  A decoder that treats some
+    particular octet pattern specially (a marker it skips, a value it short-cuts) names that pattern in its source; inputs
+    that begin with each such pattern are then decoded like any others and judged by the specification."""
+    import ast
+    repo = os.path.abspath(os.environ.get("VERIF_REPO", "/repo"))
+    if repo in _CONSTS:
+        return _CONSTS[repo]
+    out = set()
+    for root, _dirs, files in os.walk(os.path.join(repo, "spacepackets")):
+        for fn in files:
+            if not fn.endswith(".py"):
+                continue
+            try:
+                tree = ast.parse(open(os.path.join(root, fn), encoding="utf-8").read())
+            except Exception:  # noqa
+                continue
+            for node in ast.walk(tree):
+                if isinstance(node, ast.Constant):
+                    v = node.value
+                    if isinstance(v, bytes) and 1 <= len(v) <= 16:
+                        out.add(v)
+                    elif isinstance(v, str) and 2 <= len(v) <= 8 and v.isascii() and v.isalnum():
+                        out.add(v.encode())
+                    elif isinstance(v, int) and not isinstance(v, bool) and 0xFF < v < (1 << 64):
+                        n = (v.bit_length() + 7) // 8
+                        out.add(v.to_bytes(n, "big"))
+                        out.add(v.to_bytes(n, "little"))
+                elif isinstance(node, (ast.List, ast.Tuple)) and 2 <= len(node.elts) <= 16 and \
+                        all(isinstance(e, ast.Constant) and isinstance(e.value, int) and not isinstance(e.value, bool)
+                            and 0 <= e.value <= 255 for e in node.elts):
+                    out.add(bytes(e.value for e in node.elts))
+    res = sorted(out)
+    _CONSTS[repo] = res
+    return res
+
+
 def crc32_twin(data):
     """Another octet string of the same length with the same CRC-32 (five adjacent octets XORed with a multiple of the CRC-32
     polynomial), or None if data is shorter than five octets.  Used as the EARLIER content of an object: a 'did it change?'
